@@ -206,3 +206,90 @@ _install_overlap = install
 def install(w):   # noqa: F811
     _install_overlap(w)
     install_sort(w)
+
+
+def install_find_conflict(w):
+    """find_conflict: the pairwise rule of FieldsInSetCanMerge / SameResponseShape for two fields
+    with the same response name.  Decided (given pure, assumed helpers same_arguments / same_streams /
+    subfield_conflicts and the verified do_types_conflict):
+      * the two fields may differ in name and arguments only when their parents are known to be
+        mutually exclusive: the flag handed down, or two DIFFERENT OBJECT parent types;
+      * differing names / arguments / stream directives / response shapes each give a conflict;
+      * no conflict is returned only if none of these holds and the sub-selections have none;
+      * the sub-selections are compared with the same exclusivity, the named return types as parents
+        and each side's own selection set and variable map."""
+    import z3
+    from pyvc import sym
+    from pyvc.sym import VBool
+    SA = z3.Function("same_args", sym.ValS, sym.ValS, sym.ValS, sym.ValS, sym.B)
+    SS = z3.Function("same_streams", sym.ValS, sym.ValS, sym.B)
+
+    def dyn(it, v):
+        return w.to_dyn(it, v).t
+    w.spec_funcs["SameArgs"] = lambda it, a, b, c, d: VBool(SA(dyn(it, a), dyn(it, b), dyn(it, c), dyn(it, d)))
+    def same_ty_optional(it, a, b):
+        """identity of two optional type objects"""
+        from pyvc.sym import VAtom
+        from pyvc.codec import VOpt
+        if isinstance(a, VOpt) or isinstance(b, VOpt):
+            raise sym.Unsupported("SameTyOpt of an unresolved optional")
+        if isinstance(a, VAtom) or isinstance(b, VAtom):
+            return VBool(isinstance(a, VAtom) and isinstance(b, VAtom))
+        return VBool(a.t == b.t)
+    w.spec_funcs["SameTyOpt"] = same_ty_optional
+    w.spec_funcs["SameStreams"] = lambda it, a, b: VBool(SS(dyn(it, a), dyn(it, b)))
+    w.contracts[f"{OF}.same_arguments"].ensures = ["result == SameArgs(args1, var_map1, args2, var_map2)"]
+    w.contract(f"{OF}.same_streams", params={"directives1": D, "directives2": D}, returns="bool",
+               ensures=["result == SameStreams(directives1, directives2)"], raises=[], modifies=[],
+               assumed=True)
+    w.contract(f"{OF}.subfield_conflicts",
+               params={"conflicts": ("list", D), "response_name": "str", "node1": D, "node2": D},
+               returns="opt:dyn", ensures=["(result is None) == (len(conflicts) == 0)"], raises=[],
+               modifies=[], assumed=True)
+    w.shape("FieldNode", arguments=D, directives=D, selection_set=D)
+    FIELD = ("tuple", "opt:ty", "ref:FieldNode", "opt:ref:GraphQLField")
+    EXCL = ("(parent_fields_are_mutually_exclusive or (field1[0] is not None and field2[0] is not None"
+            " and not SameTyOpt(field1[0], field2[0]) and kind_is(field1[0], 'OBJECT')"
+            " and kind_is(field2[0], 'OBJECT')))")
+    NAMES = "field1[1].name.value == field2[1].name.value"
+    ARGS = "SameArgs(field1[1].arguments, var_map1, field2[1].arguments, var_map2)"
+    STREAMS = "SameStreams(field1[1].directives, field2[1].directives)"
+    SHAPES = ("(field1[2] is None or field2[2] is None"
+              " or SameShapeW(field1[2].type, field2[2].type))")
+    w.contract(f"{OF}.find_conflict",
+               params={"context": D, "cached_fields_and_fragment_spreads": D,
+                       "compared_fields_and_fragment_pairs": D, "compared_fragment_pairs": D,
+                       "parent_fields_are_mutually_exclusive": "bool", "response_name": "str",
+                       "field1": FIELD, "var_map1": D, "field2": FIELD, "var_map2": D},
+               returns="opt:dyn",
+               requires=["implies(field1[2] is not None, OutputTy(field1[2].type))",
+                         "implies(field2[2] is not None, OutputTy(field2[2].type))"],
+               ensures=[
+                   f"implies(not {EXCL} and not ({NAMES}), result is not None)",
+                   f"implies(not {EXCL} and not {ARGS}, result is not None)",
+                   f"implies(not {STREAMS}, result is not None)",
+                   f"implies(not {SHAPES}, result is not None)",
+                   f"implies(result is None, ({EXCL} or (({NAMES}) and {ARGS})) and {STREAMS} and {SHAPES})",
+               ],
+               raises=RAISES, modifies=[], waive=WAIVE,
+               call_pre={
+                   "same_arguments#1": ["same(arg_args1, field1[1].arguments)", "same(arg_var_map1, var_map1)",
+                                        "same(arg_args2, field2[1].arguments)", "same(arg_var_map2, var_map2)"],
+                   "same_streams#1": ["same(arg_directives1, field1[1].directives)",
+                                      "same(arg_directives2, field2[1].directives)"],
+                   "find_conflicts_between_sub_selection_sets#1": PASS_GET + [
+                       "same(arg_compared_fields_and_fragment_pairs, compared_fields_and_fragment_pairs)",
+                       "same(arg_compared_fragment_pairs, compared_fragment_pairs)",
+                       f"arg_are_mutually_exclusive == {EXCL}",
+                       "same(arg_selection_set1, field1[1].selection_set)",
+                       "same(arg_selection_set2, field2[1].selection_set)",
+                       "same(arg_var_map1, var_map1)", "same(arg_var_map2, var_map2)"]},
+               props={"C14"})
+
+
+_install_overlap2 = install
+
+
+def install(w):   # noqa: F811
+    _install_overlap2(w)
+    install_find_conflict(w)
